@@ -595,6 +595,90 @@ Proof.
   - apply split_out_eq_sum in H. destruct H as (_ & ins & _ & _ & _ & ?). assumption.
 Qed.
 
+(* ------------------------------------------------------------------ an induction principle for router invariants *)
+(* Any state predicate preserved by the two kinds of hop (exact-in: taker fee then swap; exact-out: swap then taker
+   fee) and by the state-threading of the backward estimate is preserved by every successful message of [sender].
+   Used by C02 to lift bank / pool-record invariants from single hops to routes, split routes and messages. *)
+Section Principle.
+Variable I : state P -> Prop.
+Variable sender : acct.
+Hypothesis I_in : forall s pid dIn amt dOut m s' r,
+  I s -> pm_swap_exact_in P s sender pid dIn amt dOut m = Ok (s', r) -> I s'.
+Hypothesis I_out : forall first s pid dIn maxIn dOut amtOut s' t,
+  I s -> out_hop first s sender pid dIn maxIn dOut amtOut = Ok (s', t) -> I s'.
+Hypothesis I_est : forall s route dOutF amtF, I s -> I (fst (expected_ins P s route dOutF amtF)).
+
+Lemma route_in_preserves : forall route s dIn amt minOut s' out,
+  I s -> route_exact_in P s sender route dIn amt minOut = Ok (s', out) -> I s'.
+Proof.
+  unfold route_exact_in. induction route as [|[pid dOut] rest IH]; intros; cbn [route_in_loop] in H0; [discriminate|].
+  destruct (pm_swap_exact_in P s sender pid dIn amt dOut (match rest with [] => minOut | _ :: _ => 1 end)) as [[s1 [o f]]|] eqn:E; [|discriminate].
+  apply I_in in E; [|assumption].
+  destruct rest as [|h2 rest']; [inversion H0; subst; assumption|]. eapply IH; eauto.
+Qed.
+
+Lemma route_out_loop_preserves : forall route first s ins dOutF amtF s' t,
+  I s -> route_out_loop P first s sender route ins dOutF amtF = Ok (s', t) -> I s'.
+Proof.
+  induction route as [|[pid dIn] rest IH]; intros first s ins dOutF amtF s' t Is H; [destruct ins; discriminate|].
+  destruct ins as [|m ins_rest]; [discriminate|].
+  rewrite route_out_loop_step in H.
+  destruct (out_hop first s sender pid dIn m (fst (next_out rest ins_rest dOutF amtF)) (snd (next_out rest ins_rest dOutF amtF))) as [[s2 after]|] eqn:E; [|discriminate].
+  apply I_out in E; [|assumption].
+  destruct rest as [|h2 rest']; [inversion H; subst; assumption|].
+  destruct (route_out_loop P false s2 sender (h2 :: rest') ins_rest dOutF amtF) as [[s3 t']|] eqn:R; [|discriminate].
+  inversion H; subst. eapply IH; eauto.
+Qed.
+
+Lemma route_out_preserves : forall route s maxIn dOutF amtF s' t,
+  I s -> route_exact_out P s sender route maxIn dOutF amtF = Ok (s', t) -> I s'.
+Proof.
+  intros. unfold route_exact_out in H0. destruct route as [|h rest]; [discriminate|].
+  pose proof (I_est s (h :: rest) dOutF amtF H) as E.
+  destruct (expected_ins P s (h :: rest) dOutF amtF) as [s1 [ins|e]]; [|discriminate]. cbn [fst] in E.
+  destruct ins as [|a0 t0]; [inversion H0; subst; assumption|].
+  eapply route_out_loop_preserves; eauto.
+Qed.
+
+Lemma split_in_loop_preserves : forall legs s dIn total s' tot,
+  I s -> split_in_loop P s sender legs dIn total = Ok (s', tot) -> I s'.
+Proof.
+  induction legs as [|[r amt] rest IH]; intros; cbn [split_in_loop] in H0; [inversion H0; subst; assumption|].
+  destruct (amt <? 0); [discriminate|].
+  destruct (route_exact_in P s sender r dIn amt 0) as [[s1 out]|] eqn:E; [|discriminate].
+  eapply IH; [|eassumption]. eapply route_in_preserves; eauto.
+Qed.
+
+Lemma split_out_loop_preserves : forall legs s dOut total s' tot,
+  I s -> split_out_loop P s sender legs dOut total = Ok (s', tot) -> I s'.
+Proof.
+  induction legs as [|[r amt] rest IH]; intros; cbn [split_out_loop] in H0; [inversion H0; subst; assumption|].
+  destruct (amt <? 0); [discriminate|].
+  destruct (route_exact_out P s sender r int_max_value dOut amt) as [[s1 tin]|] eqn:E; [|discriminate].
+  eapply IH; [|eassumption]. eapply route_out_preserves; eauto.
+Qed.
+
+Definition msg_sender (m : msg) : acct :=
+  match m with MSwapIn a _ _ _ _ | MSwapOut a _ _ _ _ | MSplitIn a _ _ _ | MSplitOut a _ _ _ => a end.
+
+Theorem handle_preserves : forall s m s' v, msg_sender m = sender ->
+  I s -> handle P s m = Ok (s', v) -> I s'.
+Proof.
+  intros s m s' v Hs Is H. unfold handle in H. destruct (negb (validate_basic m)); [discriminate|].
+  destruct m; cbn [msg_sender] in Hs; subst.
+  - eapply route_in_preserves; eauto.
+  - eapply route_out_preserves; eauto.
+  - unfold split_exact_in in H. destruct (negb (validate_split last_denom (map fst legs))); [discriminate|].
+    destruct (split_in_loop P s sender legs dIn 0) as [[s1 tot]|] eqn:E; [|discriminate].
+    destruct (tot <=? 0); [discriminate|]. destruct (tot <? minOut); [discriminate|].
+    inversion H; subst. eapply split_in_loop_preserves; eauto.
+  - unfold split_exact_out in H. destruct (negb (validate_split first_denom (map fst legs))); [discriminate|].
+    destruct (split_out_loop P s sender legs dOut 0) as [[s1 tot]|] eqn:E; [|discriminate].
+    destruct (tot <=? 0); [discriminate|]. destruct (maxIn <? tot); [discriminate|].
+    inversion H; subst. eapply split_out_loop_preserves; eauto.
+Qed.
+End Principle.
+
 (* ================================================================== with the two pool laws *)
 Hypothesis L : PoolLaws P.
 
